@@ -214,6 +214,15 @@ func init() {
 			}
 			return fr.i.tt.Ite(eq.(*Term), fr.i.tt.Const(64, 1), fr.i.tt.Const(64, 0))
 		},
+		"(*strings.Builder).copyCheck": extNop,
+		"(*strings.Builder).String": func(fr *frame, a []value) value {
+			st := (*a[0].(*value)).(structure)
+			b, ok := bytesOf(st[1])
+			if !ok {
+				fr.i.unsupported("strings.Builder with symbolic bytes")
+			}
+			return string(b)
+		},
 		"strings.Index":      func(fr *frame, a []value) value { return strings.Index(a[0].(string), a[1].(string)) },
 		"strings.IndexByte":  func(fr *frame, a []value) value { return strings.IndexByte(a[0].(string), a[1].(byte)) },
 		"strings.Count":      func(fr *frame, a []value) value { return strings.Count(a[0].(string), a[1].(string)) },
@@ -1086,4 +1095,72 @@ func ext۰time۰Sub(fr *frame, a []value) value {
 	dn := i.binop(token.SUB, types.Typ[types.Int32], types.Typ[types.Int32], tn, un)
 	d = i.binop(token.ADD, i64, i64, d, i.conv(i64, types.Typ[types.Int32], dn))
 	return d
+}
+
+// ---- sync.Map model (its implementation is built on unsafe atomics)
+
+func (i *interpreter) syncMapOf(p value) *omap {
+	ptr := p.(*value)
+	if i.syncMaps == nil {
+		i.syncMaps = make(map[*value]*omap)
+	}
+	m := i.syncMaps[ptr]
+	if m == nil {
+		m = i.makeMap(types.NewInterfaceType(nil, nil))
+		i.syncMaps[ptr] = m
+	}
+	return m
+}
+
+func init() {
+	for k, v := range map[string]externalFn{
+		"(*sync.Map).Load": func(fr *frame, a []value) value {
+			v, ok := fr.i.syncMapOf(a[0]).lookup(a[1])
+			if !ok {
+				return tuple{iface{}, false}
+			}
+			return tuple{v, true}
+		},
+		"(*sync.Map).Store": func(fr *frame, a []value) value {
+			fr.i.syncMapOf(a[0]).insert(a[1], a[2])
+			return nil
+		},
+		"(*sync.Map).LoadOrStore": func(fr *frame, a []value) value {
+			m := fr.i.syncMapOf(a[0])
+			if v, ok := m.lookup(a[1]); ok {
+				return tuple{v, true}
+			}
+			m.insert(a[1], a[2])
+			return tuple{a[2], false}
+		},
+		"(*sync.Map).LoadAndDelete": func(fr *frame, a []value) value {
+			m := fr.i.syncMapOf(a[0])
+			v, ok := m.lookup(a[1])
+			if !ok {
+				return tuple{iface{}, false}
+			}
+			m.delete(a[1])
+			return tuple{v, true}
+		},
+		"(*sync.Map).Delete": func(fr *frame, a []value) value {
+			fr.i.syncMapOf(a[0]).delete(a[1])
+			return nil
+		},
+		"(*sync.Map).Range": func(fr *frame, a []value) value {
+			m := fr.i.syncMapOf(a[0])
+			it := fr.i.rangeMap(m)
+			for {
+				t := it.next()
+				if !t[0].(bool) {
+					break
+				}
+				if !fr.i.truth(call(fr.i, fr, token.NoPos, a[1], []value{t[1], t[2]})) {
+					break
+				}
+			}
+			return nil
+		},
+	} {
+		externals[k] = v
+	}
 }
